@@ -360,6 +360,8 @@ static void c16_exec(const Plan &plan, Verdict &v)
 		if (lc + lp > 4) { lc = (int)(var % 5); lp = (int)((var / 5) % (5 - lc)); }
 		static const uint32_t dicts[] = { 0, 1, 4095, 4096, 4097, 65536, 1u << 20, 3u << 19, (1u << 20) + 1, 0xFFFFFFFFu, 1u << 30 };
 		uint32_t dict = dicts[(var / 300) % 11];
+		// every small odd multiple of a power of two (the auto-detection accepts only 2^n and 2^n + 2^(n-1))
+		if ((var >> 15) & 1) { uint32_t k = 1 + 2 * (uint32_t)((var >> 3) % 32), n = 12 + (uint32_t)((var >> 9) % 15); uint64_t d = (uint64_t)k << n; dict = d > 0xFFFFFFFFull ? 0xFFFFFFFFu : (uint32_t)d; }
 		bool known = (var >> 12) & 1, eopm = (var >> 13) & 1;
 		Bytes plain;
 		unsigned feat = 0;
